@@ -126,8 +126,23 @@ impl FloatCase {
 }
 
 pub fn supported_cfg() -> BoxedStrategy<YuvConfig> {
-    (std_matrix(), sup_transfer(), sup_primaries(), prop_oneof![Just(8u8), Just(10u8), Just(16u8), 9u8..=16], any::<bool>(), pick_from(&SUBSAMPLINGS))
-        .prop_map(|(m, t, p, d, full, ss)| cfg(m, t, p, d, full, ss))
+    (std_matrix(), sup_transfer(), sup_primaries(), prop_oneof![Just(8u8), Just(10u8), Just(16u8), 9u8..=16], any::<bool>(), pick_from(&SUBSAMPLINGS), 0u8..48)
+        .prop_map(|(m, t, p, d, full, ss, unspec)| {
+            // one config in six leaves primaries and/or transfer Unspecified: the library resolves them to supported
+            // values (C15), so these are supported configurations too, and the guessing code runs. (The matrix stays
+            // specified: RGB->YUV reports UnspecifiedMatrixCoefficients by design, which C15 counts and does not judge.)
+            let mut c = cfg(m, t, p, d, full, ss);
+            if unspec < 8 {
+                let u = if unspec & 6 == 0 { 2 } else { unspec };
+                if u & 2 != 0 {
+                    c.color_primaries = yuvxyb::ColorPrimaries::Unspecified;
+                }
+                if u & 4 != 0 {
+                    c.transfer_characteristics = yuvxyb::TransferCharacteristic::Unspecified;
+                }
+            }
+            c
+        })
         .boxed()
 }
 
